@@ -451,9 +451,8 @@ def window_affine(ctx, L, rule="R-WINDOW-AFFINE"):
                 ctx.violated(rule, L.job, inst, "window test compares %s with the window end" % "a non-index value", r.recs[j].ev.node)
                 ok = False
                 break
-            sent_before = sum(1 for (i, _) in sends if i < j)
-            # index of the packet this test belongs to
-            pk = sent_before - 1 if L.fd else sent_before
+            # index of the packet this test belongs to = index of the loop iteration it is in
+            pk = sum(1 for rec in r.recs[:j] if rec.ev.kind == "cond" and rec.ev.extra == "loop" and rec.pol) - 1
             if int(dd[1]) != pk:
                 ctx.violated(rule, L.job, inst, "window test uses index %+d relative to the packet being sent (expected the pre-increment index)" % (int(dd[1]) - pk),
                              r.recs[j].ev.node)
